@@ -87,6 +87,11 @@ Definition picks (n : node) (v : val) (path : list string) (salt : nat) : list (
     if is_leaf_node en then
       let textual := is_bytes_node en || match node_skind en with Some SString => true | _ => false end in
       ([(b, own_src en, negb b); (negb b, p1, b); (b, p2, negb b)] ++
+      (* a bool element: non-zero floats of magnitude below one are true (a conversion through an integer would lose them) *)
+      (match node_skind en with
+       | Some SBool => [(b, nth_mod (SrcInt KInt 1) [SrcF64 (f64v 5 (-1)); SrcF32 (f64v (-25) (-2)); SrcF64 (f64v 1 (-9)); SrcF32 (f64v 0 0)] salt, b)]
+       | _ => []
+       end) ++
       (if textual then [(false, nth_mod (SrcInt KInt 1) [SrcInt KInt32 42; SrcF64 (f64v 5 (-1)); SrcInt KUint64 18446744073709551615; SrcBool true] salt, false);
                         (true, nth_mod (SrcInt KInt 1) [SrcInt KInt32 42; SrcF64 (f64v 5 (-1)); SrcInt KUint64 18446744073709551615; SrcBool true] salt, true)]
        else []))%list
